@@ -269,7 +269,7 @@ T.update({
   summary="ws ConnectionReader::handle_announce_request: new first match arm `Entry::Occupied(entry) if event == Stopped => entry.remove()` shadows the peer-id comparison (independently written, same mechanism as C08b)",
   needs="one connection: announce (T, P1), announce (T, P2 != P1, stopped), close or drop - no ConnectionClosed is sent for T, P1 stays in counts and offer routing until max_peer_age",
   demo="demo/crates/ws/tests/seeded_demo.rs",
-  caught_by=[],
+  caught_by=[caught("C17", "ws", "second-peer-id-not-refused")],
  ),
  "C18b": dict(
   worktree="/tmp/seed4-C18",
@@ -283,14 +283,14 @@ T.update({
   summary="aquatic_udp::run supervision loop: indices of all finished handles are collected first and then removed in ascending order - after the first removal the others are off by one, so a live neighbour is joined (run blocks for ever) or the index is out of range (panic)",
   needs="two or more workers found finished in the same supervision pass (passes are 5 s apart), e.g. socket_workers >= 2 with an address no socket worker can bind; a single dying worker is handled correctly",
   demo="demo/crates/udp/tests/seeded_demo.rs",
-  caught_by=[],
+  caught_by=[caught("C19", "faults", "tracker-kept-running", note="missed by the quick tier at first: the grid contains the unbindable-address case with two socket workers, but the quick tier runs a seed-rotated third of the grid and seed 0 did not pick it (the thorough tier runs it). Cases in which several workers stop within one supervision pass (nothing can bind with 2-4 socket workers; the fault armed in every worker of a kind at once) are now always run in both tiers")],
  ),
  "C20b": dict(
   worktree="/tmp/seed4-C20",
   summary="udp PeerMap::announce: the 'peer id changed' branch compares only the first 8 bytes - a re-announce under a new id with the same client prefix sends no PeerRemoved(old) / PeerAdded(new); the statistics worker keys by the full id and ignores the later PeerRemoved(new)",
   needs="statistics.peer_clients on, one (ip, port) announcing with id A, then with B where A[..8] == B[..8] and A != B, then stopping or expiring: a phantom per-client tally remains",
   demo="demo/crates/udp/tests/seeded_demo.rs",
-  caught_by=[],
+  caught_by=[caught("C20", "histories:regress", "client-tallies", note="missed at first: the generated peer ids all had different 8-byte client prefixes. Neighbouring generator indices now share the prefix (a client rotating its id); with that the kept F4 regression case (re-announce under a new id, then expiry) fails at once, and so do generated histories")],
  ),
 })
 
